@@ -370,6 +370,16 @@ func checkC14(c *core.Ctx) {
 			}
 		}
 	}
+	// huge finite inputs ("for every finite input") for the element-wise activations
+	for _, a := range actConfigs(0) {
+		a := a
+		for _, v := range []float64{1e300, -1e300, 8.9e307, 9.1e307, 1e308, -1e308, 1.7e308, -1.7e308, 5e-324, -5e-324} {
+			v := v
+			c.Case(fmt.Sprintf("%s/huge/%v", a, v), true, func() core.Verdict {
+				return c14Case(a, &ref.T{Shape: []int{2}, V: []float64{v, -0.5}})
+			})
+		}
+	}
 	// rank-0 input for the element-wise activations
 	for _, a := range actConfigs(0) {
 		a := a
